@@ -12,6 +12,18 @@ class UnexpectedDER(Exception):
     pass
 
 
+def oid_to_str(oid):
+    """
+    Printable form of an object identifier given as a tuple of integers.
+
+    Safe for sub-identifiers of any size: integers too large for decimal
+    conversion (Python limits int to str conversions) are shown in hex.
+    """
+    return "(%s)" % ", ".join(
+        "%d" % n if n < 10 ** 18 else "0x%x" % n for n in oid
+    )
+
+
 def encode_constructed(tag, value):
     return int2byte(0xA0 + tag) + encode_length(len(value)) + value
 
